@@ -10,6 +10,12 @@ CLAIMED = {
  'C02': ('proof', 'deductive VCs from the real AST (pyvc): representation invariant pKa = model + SUM established by calculate_total_pka (fold rule), ghost stale-flag sequencing proof of calculate_pka, swap/undo proof of the coupling probe on symbolic determinant lists, averaging, rendering ropes; frame census of writers',
          'INV proved to be established, preserved by the coupling probe and by averaging, and re-established on every path of calculate_pka; printed rows proved to be exactly the determinants. Numeric text (2 decimals) only by the bounded monitor.',
          'A-REAL; writers abstracted by the declared frame list; list shapes <= 4 in swap proofs'),
+ 'C03': ('other', 'frame censuses over the real AST (global/singleton state writers, ambient reads, set-iteration sites, reflection) + deductive VCs for the one mutable shared table, the singleton parameter hand-over, per-call object freshness, stream rewind, descriptor statelessness; bounded history monitor',
+         'every mechanism through which an earlier computation, the cwd, the hash seed or an address could reach a result is enumerated and each is proved harmless, except the iteration order of identity-hashed sets in the coupled-residue display, which stays undecided; the quantifier over histories itself is only bounded-checked.',
+         'A-REFL; composition step; CPython dict order; print_system order (-d) undecided'),
+ 'C04': ('proof', 'deductive VCs from the real AST (pyvc): invariance / equivariance of every geometric leaf under the 24 proper signed permutations and arbitrary translations (ring normalisation), box search on a pair at arbitrary placement (C11), hydrogen placement equivariance (C17); frame census of coordinate readers and of the PDB columns',
+         'squared_distance, inter-atomic vectors, group centres, angle factors, bond perception and hydrogen construction proved independent of / equivariant under the motions, for all real coordinates; coordinates proved to enter only through these leaves.',
+         'A-REAL (float re-association in the last ulp: bounded pose monitor); hetero rotamers excluded as in the property'),
  'C05': ('proof', 'deductive VCs from the real AST (pyvc): cut-off stutter lemmas on the desolvation / reorganisation loops, pair-enumeration proof of set_determinants with equally labelled groups, closest-pair post of get_smallest_distance over abstract squared distances, identity of Iterative objects, early return of the coupling probe; GROUND cut-offs',
          'beyond the cut-off every interaction routine leaves its state unchanged; pair loops and the iterative solver tell groups apart by identity; the closest pair is always found (no sentinel) - proved for all real inputs. Fixed point of the iterative sweep: not proved (bounded).',
          'composition step + bounded monitor (two sets at 85 A ... 9000 A, both file orders, own copy)'),
@@ -25,6 +31,9 @@ CLAIMED = {
  'C09': ('proof', 'deductive VCs from the real AST (pyvc) discharged by z3: closed form/bounds/monotonicity of calculate_charge, fold rule for the container sums, inductive contract of the nested bisection, rendering contract',
          'Every obligation is a VC generated from the working tree and discharged by z3; a bounded monitor on real runs stands in for the composition step only.',
          'A-REAL, A-EXP (10**x as positive strictly monotone function), IVT for "bracket => root", termination of the bisection not proved'),
+ 'C12': ('proof', 'deductive safety VCs from the real AST (pyvc): setup_atoms of every group class over all subsets of the expected neighbours with abstracted protonation, interaction routines over short/empty atom lists (asserts as obligations), rejection posts of read_molecule_file, precheck; census obligations shared with C01',
+         'no exception escapes the group set-up and pair-interaction code for any subset of atoms around a defining atom; missing files/suffixes are rejected with ValueError only. The pipeline as a whole is bounded-checked by random deletions.',
+         'protonation abstracted; whole-pipeline exception freedom is NOT proved (bounded deletion monitor)'),
  'C13': ('proof', 'deductive VCs from the real AST (pyvc): stutter lemma and specification automaton for one arbitrary iteration of the record loop under chain selections; option plumbing VC + AST ground check of the argparse declaration; frame census of .chains',
          'records of unselected chains leave the reader state unchanged and yield nothing; all other records are processed as without the option - for every loop state and column content; hence (simulation rule) the atom sequence equals that of the file with those records deleted.',
          'stutter/simulation rule; composition step for the rest of the pipeline (bounded monitor: selection vs deletion on real runs)'),
